@@ -30,17 +30,17 @@ type Bal struct {
 }
 
 type Dir struct {
-	K    string // open close price trx assert
-	Z    int
-	A    string // open/close
-	C, T string // price: commodity, target
-	P    int    // price at scale 10^4
-	Bk   []Booking
-	Acc  Accrual
-	Bal  []Bal
-	Desc string
-	Perf []string // @performance targets (nil = none)
-	Multi bool   // render assertion in multi-line form
+	K     string // open close price trx assert
+	Z     int
+	A     string // open/close
+	C, T  string // price: commodity, target
+	P     int    // price at scale 10^4
+	Bk    []Booking
+	Acc   Accrual
+	Bal   []Bal
+	Desc  string
+	Perf  []string // @performance targets (nil = none)
+	Multi bool     // render assertion in multi-line form
 }
 
 type Rule struct {
@@ -386,12 +386,13 @@ func (f *Flags) Args() []string {
 // ---------------------------------------------------------------- generators
 
 type GenOpts struct {
-	Valued    bool // exact valued regime: integer quantities, friendly prices
-	Accruals  bool
-	Damage    bool // lifecycle damage (for C04)
-	MaxDirs   int
-	Accounts  []string
-	Unicode   bool
+	Valued      bool // exact valued regime: integer quantities, friendly prices
+	Accruals    bool
+	Damage      bool // lifecycle damage (for C04)
+	MaxDirs     int
+	Accounts    []string
+	Unicode     bool
+	DensePrices bool // many price-change days (revaluation on most days)
 }
 
 var friendly = []int{5000, 20000, 40000, 2500, 50000, 2000, 12500, 8000, 100000, 1000, 25000, 4000, 10000}
@@ -428,7 +429,11 @@ func Random(rng *rand.Rand, o GenOpts, base int) *Journal {
 	if o.Valued {
 		// price tree: USD -> CHF, AAPL -> USD (chain) or AAPL -> CHF
 		pd := []int{base - 3}
-		for k := 0; k < 2+rng.Intn(5); k++ {
+		np := 2 + rng.Intn(5)
+		if o.DensePrices {
+			np = 12 + rng.Intn(20)
+		}
+		for k := 0; k < np; k++ {
 			pd = append(pd, base+rng.Intn(span))
 		}
 		aaplT := []string{"USD", "CHF"}[rng.Intn(2)]
